@@ -284,6 +284,19 @@ ADDED = {
     "C19": " Added: every closure of mamba_to_python that decorates errors with a (source, path) pair runs its stage itself on the item it received with that pair and "
            "decorates exactly the errors of that call (map_err and closure calls inlined); the Eof token is placed after the END of the last token of tokens ++ pending dedents, never at the lexer's cursor.",
 }
+ADDED["C03"] = (" Added: the class look-up that inherits from recursively looked-up parents carries and extends the list of classes below and refuses a class in it "
+                "(ranking argument; `class A: A` overflowed the stack on the pinned tree, repaired); id_from_var and Expected::map_exp have no reachable panic! / expect "
+                "(empty tuple of variables, comment-only block).")
+ADDED["C14"] = (" Added: parser kernels for newline runs and block ends - else after a newline run, cases of match / handle and condition lists (before and behind the "
+                "Indent, after each element), empty return leaves its newline, imports stop at Dedent / Eof, block position anchored before the Indent; six of them were "
+                "violated on the pinned tree and are repaired.")
+ADDED["C04"] = (" Added: the checker's desugaring table of compound assignments (x op= e is typed through the same operator), the comparison of generic arguments one by one, "
+                "and a known finding: bitwise and shift operators are typed with Any.")
+ADDED["C06"] = " Added: field_access queues a field constraint only for a non-nullable member of the receiver's type (violated on the pinned tree, repaired)."
+ADDED["C07"] = (" Added: every parameter, `self` included, is recorded with the mutable flag of its own FunArg; known finding: `fin` class fields can be reassigned through an "
+                "instance or self (field_access never looks at Field::mutable).")
+ADDED["C02"] = " Added: interpolated expressions must go through the converter (known finding: they are copied verbatim into the f-string)."
+ADDED["C01"] = " Added: interpolated expressions keep their Mamba meaning (known finding, as C02: `{a ^ 2}` is emitted as xor)."
 for _k, _v in ADDED.items():
     CHECKS[_k]["text"] += _v
 
